@@ -41,6 +41,31 @@ def mutants_of(gen, limit):
                 lines = list(gen.lines)
                 lines[i] = new
                 out.append(('%s:%d  `%s` -> `%s`   | %s' % (org[1], org[2], m.group(0), rep, line.strip()[:90]), '\n'.join(lines) + '\n'))
+    # statement-level operators on single-line statements that come from /repo: delete one, swap two neighbours,
+    # stop propagating an error (`..)?;` -> `..);`) - the mutations that matter for ordering / protocol contracts
+    def is_stmt(k):
+        if gen.origin[k][0] != 'repo':
+            return False
+        c = mask(gen.lines[k]).strip()
+        return bool(c) and c.endswith(';') and not c.startswith(('let ', 'return', 'use ', '//')) and c.count('(') == c.count(')') and c.count('{') == c.count('}')
+    for i in range(len(gen.lines)):
+        if not is_stmt(i):
+            continue
+        org = gen.origin[i]
+        lines = list(gen.lines)
+        lines[i] = ''
+        out.append(('%s:%d  statement deleted   | %s' % (org[1], org[2], gen.lines[i].strip()[:90]), '\n'.join(lines) + '\n'))
+        if mask(gen.lines[i]).rstrip().endswith(')?;'):
+            lines = list(gen.lines)
+            lines[i] = gen.lines[i].rstrip()[:-2] + ';'
+            out.append(('%s:%d  `?` dropped   | %s' % (org[1], org[2], gen.lines[i].strip()[:90]), '\n'.join(lines) + '\n'))
+        j = i + 1
+        while j < len(gen.lines) and not gen.lines[j].strip():
+            j += 1
+        if j < len(gen.lines) and is_stmt(j):
+            lines = list(gen.lines)
+            lines[i], lines[j] = lines[j], lines[i]
+            out.append(('%s:%d  swapped with the next statement   | %s' % (org[1], org[2], gen.lines[i].strip()[:90]), '\n'.join(lines) + '\n'))
     # deterministic thinning
     if len(out) > limit:
         step = len(out) / float(limit)
